@@ -86,6 +86,28 @@ Proof.
       - unfold u' at 1. rewrite Ry. unfold F, knd', parents'. rewrite Ry. reflexivity. }
     apply (Gr u' Su c). rewrite <- (Au c Hc). exact Huc.
 Qed.
+
+(* with more fuel than nodes the calculation returns *)
+Theorem run_total fuel l s0 :
+  NoDup l -> (forall x, In x l <-> In x nodes) -> (forall x, In x nodes -> s0 x = true) -> List.length nodes < fuel ->
+  exists sv, calculate_from knd parents children const fixedval fuel l s0 = Some sv.
+Proof.
+  intros Nd Hl H0 Hf.
+  assert (HlD : forall d, In d l -> D d) by (intros d Hd; apply Hl; auto).
+  assert (A0 : agree_on D s0 top) by (intros y Hy; unfold top; apply H0; auto).
+  pose proof (calculate_ext knd knd' parents parents' children children' const const' fixedval fixedval D
+                agree_D closed_ch_D closed_pa_D fuel l s0 top HlD A0) as R.
+  assert (Hnd : NoDup nodes) by (destruct (wf_alloc s W) as (A & _); exact A).
+  assert (Hcl : forall y c, In y nodes -> In c (children' y) -> In c nodes).
+  { intros y c Hy Hc. unfold children' in Hc. destruct (rin y); [|destruct Hc]. apply (closed_ch_D y c Hy Hc). }
+  assert (P1 : NoDup ([] ++ l)) by exact Nd.
+  assert (P2 : Inv knd' parents' const' fixedval [] l top) by apply top_inv.
+  assert (P3 : forall d, In d l -> In d nodes) by (intros d Hd; apply Hl; auto).
+  destruct (calculate_total knd' parents' children' const' fixedval mirror' nodes Hnd Hcl fuel l [] top P1 P2 P3 Hf) as (t & Et).
+  unfold calculate_from in R. rewrite Et in R.
+  assert (G : forall a, orel D a (Some t) -> exists sv, a = Some sv) by (intros [sv|] Hq; [eauto|destruct Hq]).
+  apply G. exact R.
+Qed.
 End OneAnalysis.
 
 (* ---- the two instances, on the labels stored in the nodes after calc ---- *)
@@ -179,3 +201,17 @@ Lemma nec_eq_cases nh lab o :
   else if is_and (nh o) then match n_parents (nh o) with [] => true | _ => existsb counts (n_parents (nh o)) end
   else fixed_necessary (nh o).
 Proof. unfold nec_eq, F, nkind, g. destruct (is_or (nh o)); [|destruct (is_and (nh o))]; auto. Qed.
+
+
+(* the analysis always terminates within its fuel on a consistent graph with default labels *)
+Theorem calc_total s : WF s -> fresh_labels s -> calc_guard s = true -> exists s', calc s = (s', Ok).
+Proof.
+  intros W Hfresh G. unfold calc. rewrite G. cbn [negb].
+  assert (Hn : NoDup (g_nodes (s_g s))) by (destruct (wf_alloc s W) as (A & _); exact A).
+  assert (Hf : List.length (g_nodes (s_g s)) < calc_fuel s) by (unfold calc_fuel; lia).
+  destruct (run_total s W vkind (fun _ => false) fixed_viable (calc_fuel s) (g_nodes (s_g s)) (fun o => n_viable (s_nh s o)))
+    as (sv & Ev); auto; [intros x; tauto|intros x Hx; apply (Hfresh x Hx)|].
+  destruct (run_total s W nkind has_ttc_distribution fixed_necessary (calc_fuel s) (g_nodes (s_g s)) (fun o => n_necessary (s_nh s o)))
+    as (sn & En); auto; [intros x; tauto|intros x Hx; apply (Hfresh x Hx)|].
+  unfold viability_of, necessity_of. rewrite Ev, En. eauto.
+Qed.
